@@ -3,7 +3,8 @@
    parseExpressions, evaluate, GetExpressionValue, evaluateExpression, isEqual)
    and of the typed arithmetic of Include/QExpression.hpp, AFTER the repairs
    findings/D1_precedence_after_recursion.patch (/repo d87efe1), findings/D14_remainder_by_zero.patch
-   (/repo 8e23fd8) and the lead's D47 (/repo 3d5d94b: x % -1 = 0 without dividing).
+   (/repo 8e23fd8), the lead's D47 (/repo 3d5d94b: x % -1 = 0 without dividing) and D80 (/repo 4703e54:
+   getOperation's two-character look-ahead is bounded by the end of the expression).
    Definitions only (no proofs).  The second half is the SPECIFICATION:
    expression trees, textbook precedence climbing ([std_tree]) and two
    evaluators of trees: [tree_eval] (same typed arithmetic, used by the
@@ -595,7 +596,10 @@ Fixpoint get_operation (fuel : nat) (c : list N) (offset e : N) : outcome (N * N
   | S f =>
     if offset <? e then
       bind (rd c offset) (fun ch =>
-        let two (sym yes no : N) := bind (rd c (offset + 1)) (fun nx => Ok ((if nx =? sym then yes else no), offset)) in
+        (* fix 4703e54 (D80): the look-ahead stays inside the expression text *)
+        let two (sym yes no : N) :=
+          if offset + 1 <? e then bind (rd c (offset + 1)) (fun nx => Ok ((if nx =? sym then yes else no), offset))
+          else Ok (no, offset) in
         if ch =? sym_Or then two sym_Or op_Or op_BitwiseOr
         else if ch =? sym_And then two sym_And op_And op_BitwiseAnd
         else if ch =? sym_Greater then two sym_Equal op_GreaterOrEqual op_Greater
